@@ -35,9 +35,9 @@ def classify(data: bytes):
     return ("invalid", res.error.kind, res.events)
 
 
-def check_bytes(data: bytes, integrations=("generic",)):
+def check_bytes(data: bytes, integrations=("generic",), assert_on=("valid", "invalid")):
     c = classify(data)
-    if c[0] == "skip":
+    if c[0] == "skip" or c[0] not in assert_on:
         return None, c
     case = {"kind": "bytes", "hex": data.hex()}
     for integ in integrations:
@@ -61,3 +61,76 @@ def check_bytes(data: bytes, integrations=("generic",)):
                 return Violation(f"C16:diff:fabricated-before-raise:{c[1]}", f"{integ} yielded {items[-1:]!r} before raising; the rows "
                                  f"before the violation do not denote it", case), c
     return None, c
+
+
+def run_campaign(spec, acc, prop_prefix: str, mode: str):
+    """Run one atheris differential campaign (used by C04 'valid' and C16 'invalid'); artifacts are re-checked by the
+    plain path and only then become violations."""
+    import glob
+    import json
+    import os
+    import shutil
+    import subprocess
+    import sys
+
+    from vlib.harness import draw_examples
+
+    deps = os.path.join(env.VERIF, ".deps")
+    if not os.path.isdir(os.path.join(deps, "atheris")):
+        acc.counters["atheris_unavailable"] += 1
+        return
+    work = os.path.join(env.WORK, f"diff_{os.getpid()}_{spec['shard']}")
+    shutil.rmtree(work, ignore_errors=True)
+    corpus = os.path.join(work, "corpus")
+    os.makedirs(corpus)
+    for i, src in enumerate(draw_examples(scen.stream_source(max_len=5), 30, spec["seed"] * 31 + spec["shard"])):
+        data, _, _ = scen.source_bytes(src)
+        if data:
+            with open(os.path.join(corpus, f"seed{i}"), "wb") as fh:
+                fh.write(data)
+    stats = os.path.join(work, "stats.json")
+    cmd = [sys.executable, os.path.join(env.VERIF, "fuzz", "fuzz_diff.py"), mode, corpus, f"-runs={spec['runs']}",
+           f"-seed={(spec['seed'] * 131 + spec['shard']) % (2 ** 31) or 1}", "-max_len=2048", "-timeout=20",
+           "-rss_limit_mb=2048", f"-artifact_prefix={work}/", "-print_final_stats=1"]
+    e = dict(os.environ, VERIF_REPO=env.REPO, PYTHONDONTWRITEBYTECODE="1", FUZZ_STATS=stats)
+    try:
+        p = subprocess.run(cmd, capture_output=True, text=True, env=e, timeout=spec.get("wall", 900), cwd=work)
+        out = p.stderr + p.stdout
+        for line in out.splitlines():
+            if "stat::number_of_executed_units" in line:
+                n = int(line.split(":")[-1].strip())
+                acc.evaluations += n
+                acc.counters["atheris_differential_execs"] += n
+        if os.path.exists(stats):
+            st_ = json.load(open(stats))
+            acc.counters["diff_inputs_R_valid"] += st_["valid"]
+            acc.counters["diff_inputs_R_catalogued_invalid"] += st_["invalid"]
+            acc.counters["diff_inputs_not_asserted"] += st_["skip"]
+        import hashlib
+
+        for f in glob.glob(os.path.join(corpus, "*"))[:4000]:
+            with open(f, "rb") as fh:
+                d = fh.read()
+            c = classify(d)
+            if c[0] == mode:
+                acc.nontrivial.add(hashlib.sha1(d).hexdigest()[:16])
+                if len(acc.samples) < 1:
+                    acc.samples.append({"kind": "bytes", "hex": d.hex(), "R_says": c[0] if c[0] == "valid" else c[1]})
+        arts = [f for f in glob.glob(os.path.join(work, "*")) if os.path.basename(f).startswith(("crash-", "timeout-", "oom-"))]
+        for a in arts:
+            with open(a, "rb") as fh:
+                d = fh.read()
+            v, _c = check_bytes(d, assert_on=(mode,))
+            if v is None:
+                acc.counters["atheris_artifact_not_reproduced"] += 1
+                continue
+            v.signature = prop_prefix + v.signature.split(":", 1)[1]
+            if v.signature in set(spec["known"]):
+                acc.known_hits[v.signature] += 1
+            else:
+                acc.violations.append(v.to_json())
+                break
+    except subprocess.TimeoutExpired:
+        acc.counters["atheris_wall_budget_hit_inconclusive"] += 1
+    finally:
+        shutil.rmtree(work, ignore_errors=True)
